@@ -320,6 +320,13 @@ def oracle_builder_names(rng):
         probs.append(('all_atom_kinds', mixed))
         probs.append(('sage_feasibility', ss.sage_feasibility(f + 10)))
         probs.append(('sage_multiplier_search', ss.sage_multiplier_search(f + 10, level=1)))
+        # two constraints that differ only in one coefficient (-1 / -2: these two floats have equal hashes), and two equal-valued but
+        # separately built constraints next to a third one: every multiplier has its own name
+        for form in ('primal', 'dual'):
+            probs.append(('sig_constrained/%s, gts = [1 - y0, 1 - 2 y0]' % form,
+                          ss.sig_constrained_relaxation(f, [1 - y[0], 1 - 2 * y[0]], [], form=form, p=0, q=1, ell=0)))
+            probs.append(('sig_constrained/%s, eqs = [1 - y0 y1, 1 - 2 y0 y1] (p = 1)' % form,
+                          ss.sig_constrained_relaxation(f, [4 - y[0]], [1 - y[0] * y[1], 1 - 2 * y[0] * y[1]], form=form, p=1, q=1, ell=0)))
         # repeated calls on the SAME function object (polynomials cache their signomial representative and its side constraints), and a
         # user's list of additional constraints handed over twice: every Problem has its own, uniquely named Variables
         pf = x[0] ** 4 + x[1] ** 4 - x[0] * x[1] ** 2 + 2
